@@ -125,6 +125,12 @@ func vScenarioC14(rc *runCtx) {
 				typed = true
 				rc.fault("key-typed-before-ACT")
 				key := []byte([]string{"\r", "x", "ls", "\x1b[I"}[tp.Draw("c14.typeaheadkey", 4)])
+				// (a key sequence travels whole: were it cut, a hop that begins its handshake between two of its bytes
+				// would pass on half an escape sequence, which is no key anybody typed)
+				for _, l := range append([]*verifsim.Link{x.kbd}, x.up...) {
+					prevA := l.Atomic
+					l.Atomic = func(d []byte) bool { return bytes.Equal(d, key) || (prevA != nil && prevA(d)) }
+				}
 				w.Go("user.typeahead", x.client, func() { x.kbd.Write(key) })
 			}
 		}
